@@ -334,6 +334,52 @@ func (c *Ctx) functionReports(fi *core.FuncInfo) bool {
 	return found
 }
 
+// flagResetPerIteration: the bool flag is declared or set to false inside the innermost loop enclosing `at`
+// that does not itself contain the search (so a hit for one element does not leak into the next).
+func (c *Ctx) flagResetPerIteration(fi *core.FuncInfo, flag ast.Expr, at ast.Node) bool {
+	info := fi.Pkg.TypesInfo
+	o := core.ObjOf(info, flag)
+	if o == nil {
+		return false
+	}
+	pm := c.parents(fi)
+	outer := pm.Enclosing(pm[at], func(n ast.Node) bool {
+		switch n.(type) {
+		case *ast.RangeStmt, *ast.ForStmt:
+			return true
+		}
+		return false
+	})
+	if outer == nil {
+		return true
+	}
+	var body *ast.BlockStmt
+	switch x := outer.(type) {
+	case *ast.RangeStmt:
+		body = x.Body
+	case *ast.ForStmt:
+		body = x.Body
+	}
+	for _, d := range c.P.Locals(fi).Defs[o] {
+		inside := d.Pos >= body.Pos() && d.Pos <= body.End()
+		if !inside {
+			continue
+		}
+		if d.Kind == core.DefZero {
+			return true
+		}
+		if d.Kind == core.DefAssign {
+			if tv, ok := info.Types[d.Expr]; ok && tv.Value != nil && tv.Value.String() == "false" {
+				// at the top level of the loop body (not inside the search loop)
+				if blk, ok := pm[d.Node].(*ast.BlockStmt); ok && blk == body {
+					return true
+				}
+			}
+		}
+	}
+	return false
+}
+
 // dedupGuard: the append statement is controlled by !found where found is set in a range over the same list.
 func (c *Ctx) dedupGuard(fi *core.FuncInfo, as *ast.AssignStmt, list ast.Expr) bool {
 	for _, cd := range c.conds(fi, as) {
@@ -341,7 +387,7 @@ func (c *Ctx) dedupGuard(fi *core.FuncInfo, as *ast.AssignStmt, list ast.Expr) b
 			continue
 		}
 		if lst := c.searchedList(fi, cd.Expr); lst != nil && sameExpr(lst, list) {
-			return true
+			return c.flagResetPerIteration(fi, cd.Expr, as)
 		}
 		// helper form: !contains(list, v)
 		if call, ok := core.Unparen(cd.Expr).(*ast.CallExpr); ok {
@@ -409,6 +455,58 @@ func (c *Ctx) skipFlow(reach []*core.FuncInfo) {
 	}
 	if n < 4 {
 		c.S.Undecided("C17", "GUARD-SKIPFLOW", "floor", "-", fmt.Sprintf("only %d collision-list hand-overs found (confirmed by hand: 16)", n))
+	}
+	// the returned list is never overwritten after something was collected into it
+	for _, fi := range reach {
+		if !c.functionReports(fi) {
+			continue
+		}
+		info := c.info(fi)
+		type ev struct {
+			pos  token.Pos
+			acc  bool
+			text string
+		}
+		byVar := map[types.Object][]ev{}
+		ast.Inspect(fi.Decl.Body, func(nd ast.Node) bool {
+			as, ok := nd.(*ast.AssignStmt)
+			if !ok {
+				return true
+			}
+			for i, l := range as.Lhs {
+				o := core.ObjOf(info, l)
+				if o == nil || !c.flowsToReturn(fi, l) {
+					continue
+				}
+				sl, ok := o.Type().Underlying().(*types.Slice)
+				if !ok || !core.IsString(sl.Elem()) {
+					continue
+				}
+				acc := false
+				if len(as.Lhs) == len(as.Rhs) {
+					if call, ok := core.Unparen(as.Rhs[i]).(*ast.CallExpr); ok && isBuiltin(info, call, "append") && len(call.Args) > 0 && core.ObjOf(info, call.Args[0]) == o {
+						acc = true
+					}
+				}
+				byVar[o] = append(byVar[o], ev{as.Pos(), acc, exprStr(l)})
+			}
+			return true
+		})
+		for o, evs := range byVar {
+			sort.Slice(evs, func(i, j int) bool { return evs[i].pos < evs[j].pos })
+			seenAcc := false
+			bad := token.NoPos
+			for _, e := range evs {
+				if e.acc {
+					seenAcc = true
+				} else if seenAcc {
+					bad = e.pos
+				}
+			}
+			c.S.Decide(bad == token.NoPos, "C17", "GUARD-SKIPFLOW", fi.QName()+"/no-overwrite/"+o.Name(), c.P.Pos(fi.Decl.Pos()),
+				"the collision list is only ever extended once something has been collected",
+				"the collision list "+o.Name()+" is overwritten at "+c.P.Pos(bad)+" after collisions were already appended to it: those are lost from Mixin's result")
+		}
 	}
 }
 
@@ -603,6 +701,53 @@ func (c *Ctx) opIDRules(reach []*core.FuncInfo) {
 	if n < 1 {
 		c.S.Undecided("C18", "GUARD-RENAME", "floor", "-", "no store to Operation.ID found below Mixin")
 	}
+	// ids are recorded (and renamed) only for path items that are actually merged: inside a loop over the
+	// mixin's paths, every insertion into the id set is dominated by the absence of that path in the primary
+	for _, fi := range reach {
+		info := c.info(fi)
+		sig := fi.Obj.Type().(*types.Signature)
+		if sig.Params().Len() < 2 {
+			continue
+		}
+		ast.Inspect(fi.Decl.Body, func(nd ast.Node) bool {
+			rs, ok := nd.(*ast.RangeStmt)
+			if !ok || rs.Key == nil {
+				return true
+			}
+			p := c.P.PathOf(fi, rs.X, true)
+			if p == nil || p.Root != sig.Params().At(1) || !core.IsMap(info.TypeOf(rs.X)) {
+				return true
+			}
+			ast.Inspect(rs.Body, func(m ast.Node) bool {
+				as, ok := m.(*ast.AssignStmt)
+				if !ok || len(as.Lhs) != 1 {
+					return true
+				}
+				ix, ok := core.Unparen(as.Lhs[0]).(*ast.IndexExpr)
+				if !ok {
+					return true
+				}
+				mt, ok := info.TypeOf(ix.X).Underlying().(*types.Map)
+				if !ok || !core.IsBool(mt.Elem()) {
+					return true
+				}
+				guarded := false
+				for _, cd := range core.PathConds(info, c.parents(fi), as, rs) {
+					if cd.Kind != core.CondBool || !cd.Neg {
+						continue
+					}
+					if mm, kk, isLookup := c.commaOkLookup(fi, cd.Expr); isLookup && c.paramRooted(fi, mm, 0) && core.ObjOf(info, kk) == core.ObjOf(info, rs.Key) {
+						guarded = true
+					}
+				}
+				c.S.Decide(guarded, "C18", "GUARD-RENAME", fi.QName()+"/recorded-only-when-merged", c.P.Pos(as.Pos()),
+					"an id is recorded as seen only for operations of a path item that is merged into the primary",
+					"the id set is extended at "+c.P.Pos(as.Pos())+" for operations of path items that are skipped (the path already exists in the primary): a later mixin is renamed although nothing in the merged document collides with it")
+				return true
+			})
+			return true
+		})
+	}
 	// the ids of the primary are collected before merging: some function below Mixin fills a map[string]bool
 	// from the ID of every operation of every path item of its parameter, and Mixin calls it on the primary
 	// before the loop over mixins.
@@ -671,24 +816,63 @@ func guardFixer(c *Ctx) {
 				if x, empty, ok := core.EmptyTest(info, cd); ok && empty && sameExpr(x, sel) {
 					emptyOK = true
 				}
-				// any condition reading the same response's Ref
-				if cd.Kind == core.CondBool {
-					ast.Inspect(cd.Expr, func(m ast.Node) bool {
-						if s2, ok := m.(*ast.SelectorExpr); ok && s2.Sel.Name == "Ref" && sameExpr(s2.X, sel.X) {
-							refOK = true
-						}
-						return true
-					})
+				// a condition establishing "this response is not a $ref", in one of the idioms of the code base:
+				// <r>.Ref.String() == ""   or   <r>.Ref[.Ref].GetURL() == nil
+				if cd.Kind == core.CondBool && strings.Contains(exprStr(cd.Expr), exprStr(sel.X)+".Ref") {
+					if x, empty, ok := core.EmptyTest(info, cd); ok && empty && strings.HasSuffix(exprStr(x), ".String()") {
+						refOK = true
+					}
+					if x, nonNil, ok := core.NilTest(info, cd); ok && !nonNil && strings.HasSuffix(exprStr(x), ".GetURL()") {
+						refOK = true
+					}
 				}
 			}
 			c.S.Decide(emptyOK, "C19", "GUARD-DESC", key+"/only-empty", c.P.Pos(as.Pos()),
 				"stored only when the description is empty", "the description is overwritten without testing that it is empty")
 			c.S.Decide(refOK, "C19", "GUARD-DESC", key+"/not-ref", c.P.Pos(as.Pos()),
-				"stored only after testing the response's $ref", "the description is set without testing whether the response is a $ref")
+				"stored only when the response's $ref is absent (Ref.String() == \"\" or Ref.GetURL() == nil)",
+				"the description is set without establishing that the response is not a $ref by one of the accepted tests (Ref.String() == \"\", Ref.GetURL() == nil): some $ref responses (e.g. whole-document references) get a description")
 			s, isConst := core.ConstString(info, as.Rhs[0])
 			c.S.Decide(isConst && s != "", "C19", "GUARD-DESC", key+"/non-empty-constant", c.P.Pos(as.Pos()),
 				"the stored value is the non-empty constant "+fmt.Sprintf("%q", s)+" (a second call stores nothing)",
 				"the stored description is not a non-empty constant: the call may not be idempotent or may leave descriptions empty")
+			return true
+		})
+	}
+	// the sections are handled independently: the loop over one section of the document is not conditional
+	// on another section (e.g. shared responses must be fixed even when there are no paths)
+	for _, fi := range core.SortedSet(c.P.Reachable(fix)) {
+		info := c.info(fi)
+		sig := fi.Obj.Type().(*types.Signature)
+		if sig.Params().Len() == 0 {
+			continue
+		}
+		p0 := sig.Params().At(0)
+		ast.Inspect(fi.Decl.Body, func(nd ast.Node) bool {
+			rs, ok := nd.(*ast.RangeStmt)
+			if !ok {
+				return true
+			}
+			p := c.P.PathOf(fi, rs.X, true)
+			if p == nil || p.Root != p0 || len(p.Steps) == 0 || p.Steps[0].Field == nil {
+				return true
+			}
+			own := p.Steps[0].Name
+			var foreign []string
+			for _, cd := range c.conds(fi, rs) {
+				if cd.Kind != core.CondBool {
+					continue
+				}
+				ast.Inspect(cd.Expr, func(m ast.Node) bool {
+					if sel, ok := m.(*ast.SelectorExpr); ok && core.ObjOf(info, sel.X) == p0 && core.FieldOf(info, sel) != nil && sel.Sel.Name != own {
+						foreign = append(foreign, exprStr(cd.Expr))
+					}
+					return true
+				})
+			}
+			c.S.Decide(len(foreign) == 0, "C19", "GUARD-SECTIONS", fi.QName()+"/range "+exprStr(rs.X), c.P.Pos(rs.Pos()),
+				"this section is walked whatever the other sections contain",
+				"the walk over "+exprStr(rs.X)+" is conditional on another section of the document ("+strings.Join(foreign, ", ")+"): its responses are not fixed when that section is absent")
 			return true
 		})
 	}
